@@ -115,13 +115,18 @@ func EndBlocker(ctx sdk.Context, k keeper.Keeper) {
 				// charge what the requests are going to record: the prices after discounts
 				serviceFees := k.GetServiceFees(ctx, requestContext.ServiceName, providers, consumer)
 
-				if err := k.DeductServiceFees(ctx, consumer, serviceFees); err != nil {
+				// deduct on a branch: a multi-denom deduction that fails on a later denom
+				// must not leave the earlier denoms debited
+				cacheCtx, writeCache := ctx.CacheContext()
+				if err := k.DeductServiceFees(cacheCtx, consumer, serviceFees); err != nil {
 					k.OnRequestContextPaused(
 						ctx,
 						requestContext,
 						requestContextID,
 						"insufficient balances",
 					)
+				} else {
+					writeCache()
 				}
 
 				if requestContext.State == types.RUNNING {
